@@ -534,4 +534,145 @@ theorem C01.prefix_table (i : Int64) (b : Bool) (fb : UInt64) (s : Grol.Wire.Byt
 example : outcome (evalI 3 (.pre "MINUS" (.int 5))) {} = .ok (.int (-5)) := rfl
 example : outcome (evalI 3 (.pre "BANG" (.bool true))) {} = .ok (.bool false) := rfl
 
+/-! ## 7. `for` -/
+
+theorem C01.evalI_for (f : Nat) (c body : Node) :
+    evalI (f + 1) (.forE c body) = C15.enter (evalFor f c body) := by
+  evalI_step
+
+/-- a loop header that is not an assignment `x = …` / `x := …` is no special form … -/
+theorem C01.forSpecial_none (f : Nat) (c body : Node) (hc : ∀ op l r, c ≠ .inf op l r) :
+    evalForSpecialForms (f + 1) c body = pure none := by
+  cases c <;> first | exact absurd rfl (hc _ _ _) | (rw [evalForSpecialForms]; exact hc)
+
+/-- … so `for c {body}` is the generic loop, started with the value nil -/
+theorem C01.evalFor_generic (f : Nat) (c body : Node) (hc : ∀ op l r, c ≠ .inf op l r) :
+    evalFor (f + 2) c body = evalForLoop (f + 1) c body .null := by
+  rw [evalFor, C01.forSpecial_none f c body hc, pure_bind]
+
+/-! the generic loop `for cond {body}` (`evalForExpression`): one iteration -/
+
+/-- condition false (or nil): the loop ends with the value of the last iteration (nil if there was none) -/
+theorem C01.while_done (k : Nat) (c body : Node) (last cv : Obj) (st : St)
+    (hc : outcome (evalI k c) st = .ok cv) (hcv : cv = .bool false ∨ cv = .null) :
+    outcome (evalForLoop (k + 1) c body last) st = .ok last
+    ∧ stateAfter (evalForLoop (k + 1) c body last) st = stateAfter (evalI k c) st := by
+  change SameRun _ st (pure last : M Obj) _
+  rw [evalForLoop]
+  refine (C01.sameRun_bind_ok _ _ _ _ hc).trans ?_
+  rcases hcv with h | h <;> subst h <;> exact SameRun.refl _ _
+
+/-- condition true, the body ran to an ordinary value `r`: the loop goes on (condition again, in the state the
+body left) with `r` as the value so far -/
+theorem C01.while_unroll (k : Nat) (c body : Node) (last r : Obj) (st : St)
+    (hc : outcome (evalI k c) st = .ok (.bool true))
+    (hb : outcome (evalI k body) (stateAfter (evalI k c) st) = .ok r) (hr : r.stops = false) :
+    SameRun (evalForLoop (k + 1) c body last) st (evalForLoop k c body r)
+      (stateAfter (evalI k body) (stateAfter (evalI k c) st)) := by
+  rw [evalForLoop]
+  refine (C01.sameRun_bind_ok _ _ _ _ hc).trans ?_
+  rw [C01.valueOf_nonref _ (fun _ _ h' => by cases h'), pure_bind]
+  refine (C01.sameRun_bind_ok _ _ _ _ hb).trans ?_
+  cases r <;> first | exact SameRun.refl _ _ | cases hr
+
+/-- `break`: the loop ends with the value of the iteration before; `continue`: the loop goes on, keeping that
+value; `return` (or any other control value) and an error value end the loop and are its value -/
+theorem C01.while_control (k : Nat) (c body : Node) (last v : Obj) (st : St) (m : String)
+    (hc : outcome (evalI k c) st = .ok (.bool true)) :
+    (outcome (evalI k body) (stateAfter (evalI k c) st) = .ok (.ret v "BREAK") →
+      SameRun (evalForLoop (k + 1) c body last) st (pure last)
+        (stateAfter (evalI k body) (stateAfter (evalI k c) st)))
+    ∧ (outcome (evalI k body) (stateAfter (evalI k c) st) = .ok (.ret v "CONTINUE") →
+      SameRun (evalForLoop (k + 1) c body last) st (evalForLoop k c body last)
+        (stateAfter (evalI k body) (stateAfter (evalI k c) st)))
+    ∧ (outcome (evalI k body) (stateAfter (evalI k c) st) = .ok (.ret v "RETURN") →
+      SameRun (evalForLoop (k + 1) c body last) st (pure (.ret v "RETURN"))
+        (stateAfter (evalI k body) (stateAfter (evalI k c) st)))
+    ∧ (outcome (evalI k body) (stateAfter (evalI k c) st) = .ok (.error m) →
+      SameRun (evalForLoop (k + 1) c body last) st (pure (.error m))
+        (stateAfter (evalI k body) (stateAfter (evalI k c) st))) := by
+  refine ⟨fun hb => ?_, fun hb => ?_, fun hb => ?_, fun hb => ?_⟩ <;>
+  · rw [evalForLoop]
+    refine (C01.sameRun_bind_ok _ _ _ _ hc).trans ?_
+    rw [C01.valueOf_nonref _ (fun _ _ h' => by cases h'), pure_bind]
+    refine (C01.sameRun_bind_ok _ _ _ _ hb).trans ?_
+    exact SameRun.refl _ _
+
+/-- an integer condition `for n {body}`: the counting loop over `[0, n)` without a loop variable, started in
+the state the evaluation of `n` left -/
+theorem C01.while_int (k : Nat) (c body : Node) (last : Obj) (n : Int64) (st : St)
+    (hc : outcome (evalI k c) st = .ok (.int n)) :
+    SameRun (evalForLoop (k + 1) c body last) st (evalForInteger k body 0 n.toInt "" .null)
+      (stateAfter (evalI k c) st) := by
+  rw [evalForLoop]
+  refine (C01.sameRun_bind_ok _ _ _ _ hc).trans ?_
+  exact SameRun.refl _ _
+
+/-- any other condition value (a string, an array, …) is an error -/
+theorem C01.while_bad_condition (k : Nat) (c body : Node) (last : Obj) (s : Grol.Wire.Bytes) (st : St)
+    (hc : outcome (evalI k c) st = .ok (.str s)) :
+    outcome (evalForLoop (k + 1) c body last) st =
+      .ok (err "for condition is not a boolean nor integer nor assignment") := by
+  have : SameRun (evalForLoop (k + 1) c body last) st
+      (pure (err "for condition is not a boolean nor integer nor assignment")) (stateAfter (evalI k c) st) := by
+    rw [evalForLoop]
+    refine (C01.sameRun_bind_ok _ _ _ _ hc).trans ?_
+    exact SameRun.refl _ _
+  exact this.1
+
+/-! the counting loop (`evalForInteger`), no loop variable (`name = ""`) -/
+
+/-- `for 0 {…}` and the end of every counting loop: no iteration left, the value so far, NO effect at all -/
+theorem C01.forInteger_done (k : Nat) (body : Node) (i : Int) (name : String) (last : Obj) :
+    evalForInteger (k + 1) body i i name last = pure last := by
+  rw [evalForInteger]
+  simp
+
+/-- a negative count is an error -/
+theorem C01.forInteger_negative (k : Nat) (body : Node) (i endV : Int) (name : String) (last : Obj)
+    (h : endV < i) :
+    evalForInteger (k + 1) body i endV name last = pure (err "for loop with negative count") := by
+  rw [evalForInteger]
+  have : endV - i < 0 := by omega
+  simp [this]
+
+/-- the unrolling law: with iterations left (`i < end`), the loop is the body, and then — when the body ran
+to an ordinary value `r` — the loop from `i + 1` in the state the body left, with `r` as the value so far -/
+theorem C01.forInteger_unroll (k : Nat) (body : Node) (i endV : Int) (last r : Obj) (st : St)
+    (h : i < endV) (hb : outcome (evalI k body) st = .ok r) (hr : r.stops = false) :
+    SameRun (evalForInteger (k + 1) body i endV "" last) st (evalForInteger k body (i + 1) endV "" r)
+      (stateAfter (evalI k body) st) := by
+  rw [evalForInteger]
+  have h1 : ¬ (endV - i < 0) := by omega
+  have h2 : ¬ (i ≥ endV) := by omega
+  simp only [h1, h2, if_false, bne_self_eq_false, Bool.false_eq_true]
+  refine (C01.sameRun_bind_ok _ _ _ _ hb).trans ?_
+  cases r <;> first | exact SameRun.refl _ _ | cases hr
+
+/-- `break` / `continue` / `return` / error value in a counting loop -/
+theorem C01.forInteger_control (k : Nat) (body : Node) (i endV : Int) (last v : Obj) (st : St) (m : String)
+    (h : i < endV) :
+    (outcome (evalI k body) st = .ok (.ret v "BREAK") →
+      SameRun (evalForInteger (k + 1) body i endV "" last) st (pure last) (stateAfter (evalI k body) st))
+    ∧ (outcome (evalI k body) st = .ok (.ret v "CONTINUE") →
+      SameRun (evalForInteger (k + 1) body i endV "" last) st (evalForInteger k body (i + 1) endV "" last)
+        (stateAfter (evalI k body) st))
+    ∧ (outcome (evalI k body) st = .ok (.ret v "RETURN") →
+      SameRun (evalForInteger (k + 1) body i endV "" last) st (pure (.ret v "RETURN")) (stateAfter (evalI k body) st))
+    ∧ (outcome (evalI k body) st = .ok (.error m) →
+      SameRun (evalForInteger (k + 1) body i endV "" last) st (pure (.error m)) (stateAfter (evalI k body) st)) := by
+  have h1 : ¬ (endV - i < 0) := by omega
+  have h2 : ¬ (i ≥ endV) := by omega
+  refine ⟨fun hb => ?_, fun hb => ?_, fun hb => ?_, fun hb => ?_⟩ <;>
+  · rw [evalForInteger]
+    simp only [h1, h2, if_false, bne_self_eq_false, Bool.false_eq_true]
+    refine (C01.sameRun_bind_ok _ _ _ _ hb).trans ?_
+    exact SameRun.refl _ _
+
+/-- `for n {body}` as a node, `n` an integer literal: the prologue, the literal, then the counting loop -/
+example : outcome (evalI 9 (.forE (.int 3) (.int 7))) {} = .ok (.int 7) := rfl
+example : outcome (evalI 6 (.forE (.int 0) (.ident "nosuch"))) {} = .ok .null := rfl
+example : outcome (evalI 6 (.forE (.bool false) (.int 7))) {} = .ok .null := rfl
+example : outcome (evalI 1 (.int 7)) {} = .ok (.int 7) ∧ (Obj.int 7).stops = false := ⟨rfl, rfl⟩
+
 end Grol.E
